@@ -474,9 +474,9 @@ def _separators(ctx, mir) -> None:
 
 def run(ctx) -> None:
     ctx.explanation = EXPLANATION
-    _table_is_cumulative(ctx)
-    _py_forward(ctx)
-    _py_backward(ctx)
+    ctx.step(_table_is_cumulative, ctx)
+    ctx.step(_py_forward, ctx)
+    ctx.step(_py_backward, ctx)
     mir = None
     sf = {}
     try:
@@ -489,10 +489,10 @@ def run(ctx) -> None:
         _rs_backward(ctx, mir)
         _separators(ctx, mir)
         ctx.expect_min("SEPARATOR.pair", 10)
-    _week(ctx, mir, sf)
-    _fraction(ctx, mir)
-    _offset(ctx, mir, sf)
-    _wrap_sites(ctx)
+    ctx.step(_week, ctx, mir, sf)
+    ctx.step(_fraction, ctx, mir)
+    ctx.step(_offset, ctx, mir, sf)
+    ctx.step(_wrap_sites, ctx)
     ctx.expect_min("CUMSEARCH", 10)
     ctx.expect_min("WEEKDATE", 3)
     ctx.expect_min("OFFSET.parse", 6)
